@@ -12,7 +12,7 @@ from collections import Counter
 from vf import harness
 from vf.c10_gen import (FIELD_NAMES, VALID, Loaded, all_validator_names, aliaser_fn, core_count, core_shapes, decorate, ext_name, is_initvar,
                         plain_spec, random_shape)
-from vf.c10_model import datum, deps_of, predict, relevant_validators
+from vf.c10_model import Static, datum, deps_of, predict, relevant_validators
 from vf.core import h64
 
 PROP = "C10"
@@ -128,7 +128,9 @@ class Prog:
         self.aliased = {f["n"] for f in spec["fields"] if ext_name(spec, f["n"]) != f["n"]}
         self.cls_names = [v["n"] for v in spec["validators"]]
         self.vby = {v["n"]: v for v in spec["validators"]}
-        self.sig = json.dumps(spec, sort_keys=True)
+        self.sig = h64(json.dumps(spec, sort_keys=True))
+        self.static = Static(spec)
+        self.T = self.loaded.T
         self.counts = Counter()
 
     def count(self, key, n=1):
@@ -228,11 +230,11 @@ def check_case(env, prog, case, label, use_function=False):
     C("outcome:" + out.kind)
 
     post_init_fields = {f["n"] for f in spec["fields"] if f.get("post_init")}
-    P = predict(spec, case, prog.order_mode, True)
+    P = predict(spec, case, prog.order_mode, True, prog.static)
     obs_cls = [(n, r) for n, r in log if n in prog.vby]
     obs_names = [n for n, _ in obs_cls]
     if P.structural and post_init_fields:
-        P2 = predict(spec, case, prog.order_mode, False)
+        P2 = predict(spec, case, prog.order_mode, False, prog.static)
         if [n for n, _ in P2.class_runs] != [n for n, _ in P.class_runs]:
             C("abstain_post_init_gating")
             if Counter(obs_names) == Counter(n for n, _ in P2.class_runs):
@@ -423,19 +425,17 @@ def cases_for(spec, rng, n_cases=None, extras=True, extra_prob=0.2):
         for st in itertools.product("VAI", repeat=len(names)):
             status = dict(zip(names, st))
             rel = relevant_validators(spec, status)
-            if len(rel) > 4:
-                # field-level validators inflate the table: class-validator outcomes stay exhaustive, the others are sampled
-                cls = [x for x in rel if not x.startswith(("fv_", "nt_"))]
-                oth = [x for x in rel if x.startswith(("fv_", "nt_"))]
-                subsets = set()
-                for k in range(len(cls) + 1):
-                    for cs in itertools.combinations(cls, k):
-                        subsets.add(cs)
-                        for _ in range(2):
-                            subsets.add(tuple(x for x in rel if (x in cs) or (x in oth and rng.random() < 0.4)))
-                subsets = sorted(subsets)
-            else:
-                subsets = [s for k in range(len(rel) + 1) for s in itertools.combinations(rel, k)]
+            cls = [x for x in rel if not x.startswith(("fv_", "nt_"))]
+            oth = [x for x in rel if x.startswith(("fv_", "nt_"))]
+            # every failing subset of the invocable class validators (function validators of field values all passing) ...
+            subsets = [s for k in range(len(cls) + 1) for s in itertools.combinations(cls, k)]
+            if oth:
+                # ... plus each function validator of a field value failing alone / all of them failing, with seeded class outcomes
+                # (a failing one makes its field invalid, which removes the dependent class validators from the table anyway)
+                more = {(o,) + tuple(x for x in cls if rng.random() < 0.5) for o in oth}
+                more.add(tuple(oth) + tuple(cls))
+                more.add(tuple(oth))
+                subsets += sorted(more)
             for fs in subsets:
                 yield {"status": status, "fail": list(fs), "extra": None}
         return
@@ -585,7 +585,7 @@ def run(env):
         run_program(env, spec, rng, f"core#{i}/decorated", n_cases=None, extras=False, then_extras=6)
         done += 1
         env.count("core_shapes_done")
-    nprog = env.n(0, 16000)
+    nprog = env.n(0, 12000)
     for j in range(nprog):
         if env.out_of_time():
             env.notes.append("time cap reached in the random part")
@@ -593,7 +593,7 @@ def run(env):
         rng = env.rng
         shape = random_shape(rng)
         spec = decorate(shape, f"R{env.shard}_{j}", rng)
-        run_program(env, spec, rng, f"random#{env.shard}.{j}", n_cases=40)
+        run_program(env, spec, rng, f"random#{env.shard}.{j}", n_cases=32)
 
 
 def finish_coverage(cov, counters, tier):
